@@ -18,6 +18,7 @@ import (
 	"io/fs"
 	"os"
 	"path/filepath"
+	"runtime/debug"
 	"sort"
 	"strings"
 	"testing"
@@ -25,6 +26,7 @@ import (
 
 	"verifsim/choice"
 	"verifsim/gen/conc"
+	"verifsim/gen/pkgs"
 	"verifsim/gen/skel"
 	"verifsim/gen/tmpl"
 	"verifsim/gen/tree"
@@ -41,6 +43,10 @@ var theT *testing.T
 
 func TestC04(t *testing.T) {
 	theT = t
+	// An unbounded recursion of the compiler ends in "fatal error: stack
+	// overflow" either way; a 64 MB limit (instead of 1 GB) makes it, and its
+	// minimisation through child processes, fifty times cheaper.
+	debug.SetMaxStack(64 << 20)
 	loadCorpus()
 	harness.Main(t, harness.Check{Prop: "C04", Exec: exec, ShrinkBudget: 300})
 }
@@ -306,7 +312,18 @@ func exec(r *harness.Run) *harness.Violation {
 	// Source.
 	var src source
 	opts := &scriggo.BuildOptions{AllowGoStmt: true}
-	switch s.Pick(6, 4, 2, 1, 1, 2) {
+	switch s.Pick(6, 4, 2, 1, 1, 2, 1) {
+	case 6:
+		// A module of several packages with a drawn import graph (cycles,
+		// diamonds, missing packages): built undamaged half of the time.
+		g := pkgs.Gen(s, pkgs.Options{Feature: r.Feature})
+		src = source{name: "generated package graph", program: true, files: map[string][]byte{}}
+		for n, c := range g.Files {
+			src.files[n] = []byte(c)
+		}
+		if g.HasCycle {
+			r.Count("probe.import_cycle_reachable", 1)
+		}
 	case 5:
 		// A very short stored file: 1-6 delimiters/keywords (what is left of
 		// a file after a torn write near its beginning).
@@ -362,7 +379,7 @@ func exec(r *harness.Run) *harness.Violation {
 	// reference graphs (extends in rendered files, cycles, escaping paths) are
 	// unusual inputs of their own.
 	dnum, dden := 9, 10
-	if src.name == "generated file tree" {
+	if src.name == "generated file tree" || src.name == "generated package graph" {
 		dnum, dden = 1, 2
 	}
 	if s.Chance(dnum, dden) {
